@@ -260,7 +260,7 @@ def run_stream(ctx, corr, bases=None):
         docs.append((f"result of {name} one chunk", x, -1, "accept"))
         xs = x.decode("utf-8", "replace")
         if len(x) < 60000:
-            for _ in range(ctx.size(6, 60)):
+            for _ in range(ctx.size(4, 60)):
                 m, what = mutate(rng, xs, names)
                 docs.append((f"result of {name}: {what}", m.encode(), rng.choice([-1, -2]), None))
     # ---- the whole (state, tag) table: every prefix of a document that visits every section, then every tag name
@@ -302,12 +302,12 @@ def run_stream(ctx, corr, bases=None):
         isk = [bool(re.search(r"<(flt|band|cov-mat)>$", p[1]) or "close" in p[0] or " text" in p[0]) for p in probes]
         keep = [p for p, k in zip(probes, isk) if k]
         rest = [p for p, k in zip(probes, isk) if not k]
-        probes = keep + rng.sample(rest, min(len(rest), 600))
+        probes = keep + rng.sample(rest, min(len(rest), 400))
     for lab, t in probes:
         docs.append((lab, t.encode(), -1, None))
     for lab, t in cov_variants(rng):
         docs.append((lab, t.encode(), -1, None))
-    for i in range(ctx.size(50, 1500)):
+    for i in range(ctx.size(30, 1500)):
         g = gen_result(rng) if rng.random() < 0.9 else gen_error_doc(rng)
         b = g.encode()
         docs.append((f"generated {i}", b, rng.choice([-1, -2]), "accept"))
